@@ -87,6 +87,8 @@ print('inserted %d noise statements (%s)' % (total, mode))
 bad = 0
 for c in json.load(open(os.path.join(HERE, 'MANIFEST.json')))['checks']:
     pid = c['property_id']
+    if os.environ.get('ONLY') and pid not in os.environ['ONLY'].split(','):
+        continue
     try:
         a = {f.key for f in run_consensus(pid, quiet=True).findings}
         b = {f.key for f in run_consensus(pid, overlay=overlay,
